@@ -180,6 +180,9 @@ func kvSysFromJob(j Job) Sys {
 		return floatDefaultSys(j)
 	}
 	kind := j.s("c", "rbt")
+	if ts := typedSysFor(kind, j); ts != nil {
+		return ts
+	}
 	cmpN, vcmpN := j.s("cmp", "nat"), j.s("vcmp", "nat")
 	if j.p("rank", 0) == 1 {
 		fresh := func(i int) Val { return Val(i) }
